@@ -271,6 +271,19 @@ fn issuer_history(ctx: &Ctx, case: u64, l: &mut Local) {
                     // a call that makes the issuer write several hundred decoys (when decoys are on)
                     u[format!("rows#{k}:777;")] = Value::Array((0..150 + r.below(150)).map(|i| json!({"i": i % 5})).collect());
                 }
+                if r.chance(8) {
+                    // a claim set WITHOUT some of the registered claims the previous ones had (exp, iat, iss, sub):
+                    // the credential then simply does not carry them (and does not verify without exp)
+                    if let Some(o) = u.as_object_mut() {
+                        o.remove("exp");
+                        for nm in ["iat", "iss", "sub", "nbf"] {
+                            if r.chance(40) {
+                                o.remove(nm);
+                            }
+                        }
+                    }
+                    l.count("issuer.calls.without-exp");
+                }
                 let st = gen::gen_strategy(&mut r, &u, skind);
                 (u, st, k)
             }
@@ -382,6 +395,11 @@ fn issuer_history(ctx: &Ctx, case: u64, l: &mut Local) {
                 other => other.map(|_| Value::Null),
             };
             match got {
+                _ if s.u.get("exp").is_none() => match got {
+                    Outcome::Ok(v) => l.violate(viol(case, "stale-registered-claim", &format!("call#{k}"), "a credential issued from claims without exp verifies".into(), json!({"input": input(), "got": v}))),
+                    p @ Outcome::Panic(..) => l.violate(viol(case, "panic", &format!("call#{k}"), p.panic_signature().unwrap_or_default(), json!({"input": input()}))),
+                    _ => l.count("issuer.result.without-exp-refused"),
+                },
                 Outcome::Ok(v) if v == exp => l.count("issuer.result.verifies-to-model"),
                 Outcome::Ok(v) => l.violate(viol(case, "reused-issuer-result-verifies-differently", &format!("call#{k}"), "verified claims differ from the model".into(), json!({"input": input(), "selection": sel, "got": v, "expected": exp}))),
                 other => l.violate(viol(case, "reused-issuer-result-unusable", &format!("call#{k}"), other.panic_signature().unwrap_or_else(|| other.describe()), json!({"input": input(), "selection": sel, "history": api::history()}))),
@@ -409,8 +427,11 @@ fn holder_history(ctx: &Ctx, case: u64, l: &mut Local) {
             return;
         }
     };
-    let len = 1 + r.below(8) as usize;
-    let with_failures = r.chance(50);
+    // a few holders are used SLOWLY: eight key-bound presentations 0.8 s apart (time-throttled or cached clock
+    // readings show only when calls are less than a second apart over several seconds)
+    let slow = case % 2048 == 77 && cfg.holder.is_some();
+    let len = if slow { 8 } else { 1 + r.below(8) as usize };
+    let with_failures = !slow && r.chance(50);
     let base_input = || json!({"config": cfg.describe(), "claims": s.u, "strategy": s.strat.describe()});
     let mut holder = match api::holder_new(&issued.sd_jwt, cfg.fmt) {
         Outcome::Ok(h) => h,
@@ -504,7 +525,11 @@ fn holder_history(ctx: &Ctx, case: u64, l: &mut Local) {
         let repeat = prev_args.is_some() && r.chance(30);
         let sel = if repeat { prev_args.as_ref().unwrap().0.clone() } else { pipeline::random_selection(&mut r, &s.u) };
         let (_, d) = model::view(&s.u, &sel, &s.strat.sd);
-        let mut kb: Option<KbArgs> = cfg.holder.filter(|_| r.chance(if repeat { 85 } else { 50 })).map(|h| pipeline::kb_args_for(&mut r, h));
+        let mut kb: Option<KbArgs> = cfg.holder.filter(|_| slow || r.chance(if repeat { 85 } else { 50 })).map(|h| pipeline::kb_args_for(&mut r, h));
+        if slow {
+            l.count("holder.calls.slow-sequence");
+            std::thread::sleep(std::time::Duration::from_millis(800));
+        }
         if let (true, Some(k), Some((_, Some(pk)))) = (repeat, kb.as_mut(), prev_args.as_ref()) {
             k.aud = pk.aud.clone();
             k.nonce = pk.nonce.clone();
